@@ -207,6 +207,16 @@ def cases(rng, tier):
     # every ordered pair of the special / host-state programs: q after p must equal q alone
     sp = SPECIAL + _host_state_programs()
     pairs = [[p1, q] for p1 in sp for q in sp]
+    # programs of identical layout (same lines, same columns) that differ in one word — in one line and spread over lines,
+    # so that everything position-like (file name, line number, columns, even the text of the line holding the call word)
+    # coincides between different programs
+    shapes = []
+    for op in ["ㄷ", "ㄱ", "ㅅ", "ㄴ", "ㅈ"]:
+        shapes += [f"ㄹ ㄷ {op} ㅎㄷ", f"ㄹ ㄷ {op}\nㅎㄷ", f"ㄹ ㄷ\n{op}\nㅎㄷ", f"ㄹ ㄷ ({op} ㅎ)\nㅎㄷ".replace(f"({op} ㅎ)", f"{op}")]
+    for a in ["ㄴ", "ㄹ", "ㅂ"]:
+        shapes += [f"{a} ㄷ ㄷ ㅎㄷ", f"{a} ㄷ\nㄷ ㅎㄷ", f"{a}\nㄷ ㄷ ㅎㄷ"]
+    shapes = list(dict.fromkeys(shapes))
+    pairs += [[p1, q] for p1 in shapes for q in shapes if p1 != q]
     B = 24
     for tag, ss in (('session', sessions), ('pair', pairs), ('equalish', _equalish_sessions(rng, tier))):
         for i in range(0, len(ss), B):
@@ -232,7 +242,7 @@ SPEC = {
     'lean': ['C20'],
     'cases': cases,
     'stream': 'C20 session stream',
-    'rule': 'all ordered pairs of the special and host-state programs, equalish sessions (each numeric built-in / math / bitwise function applied in one process to host-equal but language-distinct arguments: ±0.0, 0, ±0.0±0.0i, 1, 1.0, −1, in forward, reverse and shuffled order), and sessions of 2–15 programs (with repetitions and shuffles) drawn from a pool of imports (by literal, by path, '
+    'rule': 'all ordered pairs of the special and host-state programs, all ordered pairs of same-layout programs (one line and several lines, differing in one word at identical positions), equalish sessions (each numeric built-in / math / bitwise function applied in one process to host-equal but language-distinct arguments: ±0.0, 0, ±0.0±0.0i, 1, 1.0, −1, in forward, reverse and shuffled order), and sessions of 2–15 programs (with repetitions and shuffles) drawn from a pool of imports (by literal, by path, '
             'nested, failing, self-importing a failing module), stack-limit aborts, I/O, dictionaries, built-in modules, '
             'programs that depend on process-wide host settings (printing / ㅁㅈ / ㅈㅅ of integers beyond 4300 digits, relative file paths after imports from sub-directories), random typed and ill-typed programs, all evaluated in one process without resetting anything: every outcome '
             '(result, exception, stdout, consumed stdin) must equal the stand-alone outcome, which in turn must equal the '
